@@ -35,6 +35,30 @@ EXPLANATION = (
 NOT_DECIDED = "the patched real record equals the result of the direct update; skeleton equality at run time"
 
 
+def _carries_param(e, prm):
+    """does the expression evaluate to the parameter when the parameter is a non-empty value?  True / False / None (unknown)"""
+    if isinstance(e, ast.Name):
+        return True if e.id == prm else None
+    if isinstance(e, ast.BoolOp) and e.values and isinstance(e.values[0], ast.Name) and e.values[0].id == prm:
+        if isinstance(e.op, ast.Or):
+            return True
+        return _lit_or(e.values[-1], prm)
+    if isinstance(e, ast.IfExp):
+        t = norm(e.test)
+        if t in (f"{prm} is None", f"not {prm}"):
+            return _lit_or(e.orelse, prm)
+        if t in (f"{prm} is not None", prm):
+            return _lit_or(e.body, prm)
+        return None
+    return _lit_or(e, prm) if isinstance(e, (ast.Dict, ast.Constant, ast.List, ast.Tuple, ast.Set)) else None
+
+
+def _lit_or(e, prm):
+    if isinstance(e, (ast.Dict, ast.Constant, ast.List, ast.Tuple, ast.Set)) and not any(isinstance(x, ast.Name) and x.id == prm for x in ast.walk(e)):
+        return False
+    return _carries_param(e, prm)
+
+
 def run(P, rep, tier):
     rep.explanation = EXPLANATION
     rep.not_decided = NOT_DECIDED
@@ -347,6 +371,24 @@ def r5_manifest_hash(P, rep, ctx):
                 df = fu.dict_filter(val)
                 oku = oku and df is not None and df["src"] == f"{ubp}.ub_exts.items()" and MM.equivalent(df["kept"], f"{df['key']} != IH5UBExtManifest.ext_name()")
     rep.check(oku, "C10.R5", fufi.qual, "the manifest embeds a copy of the user block without the (circular) manifest extension, under a fresh uuid", fufi.loc(), construct="from_userblock", message="from_userblock changed shape")
+    # the skeleton / extensions handed in are the ones stored (a default only replaces a missing one)
+    try:
+        vps = fu.value_paths()
+    except ValueError:
+        vps = []
+    for lits_, v, i in vps:
+        m = MM.match("cls(manifest_uuid=uuid1(), user_block=__u, skeleton=__s, manifest_exts=__e)", v)
+        if m is None:
+            continue
+        for prm, key in (("skeleton", "__s"), ("exts", "__e")):
+            if prm not in fufi.params:
+                continue
+            cp = _carries_param(m[key], prm)
+            if cp is None:
+                rep.info(f"C10.R5: how from_userblock passes `{prm}` on is spelled in a way the rule does not evaluate (no verdict)")
+                continue
+            rep.check(cp, "C10.R5", fufi.qual, f"a given `{prm}` is stored as given", fufi.loc(), construct=f"from_userblock stores {prm}",
+                      message=f"from_userblock stores `{norm(m[key])[:60]}` for `{prm}`: a skeleton / extension dict handed in is replaced by the default, so the manifest no longer describes the record and a stub built from it lacks its nodes")
     exc = [n for n in g.nodes if n.kind == "except"]
     olds = f.call_sites("self._set_ublock(-1, __o)")
     restores = [i for i, c, b in olds if f.x_at(i, b["__o"]) == "self._ublock(-1)" or isinstance(b["__o"], ast.Name)]
